@@ -60,16 +60,25 @@ Fixpoint all_lookup (reg : registry) (blocks : list (list string)) : option (lis
               end
   end.
 
-(* the loop over itertools.product: the first combination whose dimensions fit wins;
-   otherwise the LAST one examined is interpolated *)
-Fixpoint scan_products (array_dims : list string) (ps : list (list varinfo)) (last : option mexpr)
-  : option mexpr :=
-  match ps with
-  | [] => last
-  | p :: r =>
-    if subsetS (flat_map snd p) array_dims
-    then Some (map (fun v => {| f_name := fst v; f_interp := false |}) p)
-    else scan_products array_dims r (Some (map (fun v => {| f_name := fst v; f_interp := true |}) p))
+(* one factor per block of the partition: the variable registered at the array's position
+   if there is one, otherwise the last one registered, interpolated; an empty list of
+   candidates is a KeyError (the next partition is tried) *)
+Definition choose_block (array_dims : list string) (l : list varinfo) : option factor :=
+  match find (fits array_dims) l with
+  | Some v => Some {| f_name := fst v; f_interp := false |}
+  | None => match rev l with
+            | v :: _ => Some {| f_name := fst v; f_interp := true |}
+            | [] => None
+            end
+  end.
+
+Fixpoint choose_blocks (array_dims : list string) (ls : list (list varinfo)) : option mexpr :=
+  match ls with
+  | [] => Some []
+  | l :: r => match choose_block array_dims l, choose_blocks array_dims r with
+              | Some f, Some fs => Some (f :: fs)
+              | _, _ => None
+              end
   end.
 
 Fixpoint scan_combinations (reg : registry) (array_dims : list string) (cs : list (list (list string)))
@@ -79,9 +88,9 @@ Fixpoint scan_combinations (reg : registry) (array_dims : list string) (cs : lis
   | c :: r =>
     match all_lookup reg c with
     | None => scan_combinations reg array_dims r                (* KeyError: try the next one *)
-    | Some ls => match scan_products array_dims (products ls) None with
-                 | Some e => Some e
-                 | None => scan_combinations reg array_dims r
+    | Some ls => match choose_blocks array_dims ls with
+                 | Some (f :: fs) => Some (f :: fs)
+                 | _ => scan_combinations reg array_dims r
                  end
     end
   end.
